@@ -82,6 +82,7 @@ type Config struct {
 	LockOps    bool     // include lock/unlock through the shim
 	DirectLock bool     // include locking the keyring directly
 	KIDs       []string // KeyID tags to draw from (see kidFor)
+	FirstKID   string   // if set, the KeyID tag of the first two certificates of the material
 	Forward    bool
 	Preload    bool // put identities into the keyring before the shim is built
 	// LockFaultPct: percentage of lock/unlock requests the underlying agent refuses (failure or garbage reply).
@@ -206,7 +207,10 @@ func kidFor(tag string, r *rand.Rand) (string, bool) {
 		return s, false
 	case "near-ver-null": // a version member that says nothing: no supported version is declared
 		s := gen.YSSHCAKeyID(gen.KeyIDSpec{HW: true, Touch: 1, TransID: tid, Prins: []string{"u"}})
-		return strings.Replace(s, `"ver":1`, `"ver":`+[]string{"null", "null", `"1"`, "[1]", "true"}[r.Intn(5)], 1), false
+		return strings.Replace(s, `"ver":1`, `"ver":null`, 1), false
+	case "near-ver-retyped":
+		s := gen.YSSHCAKeyID(gen.KeyIDSpec{HW: true, Touch: 1, TransID: tid, Prins: []string{"u"}})
+		return strings.Replace(s, `"ver":1`, `"ver":`+[]string{`"1"`, "[1]", "true", "1.0", "{}"}[r.Intn(5)], 1), false
 	case "near-ver257": // 257 = 1 mod 256; 65281 = 1 mod 256 too
 		s := gen.YSSHCAKeyID(gen.KeyIDSpec{HW: true, Touch: 1, TransID: tid, Prins: []string{"u"}})
 		return strings.Replace(s, `"ver":1`, `"ver":`+[]string{"257", "513", "65281"}[r.Intn(3)], 1), false
@@ -248,7 +252,7 @@ func kidFor(tag string, r *rand.Rand) (string, bool) {
 }
 
 // AllKIDs is the full list of KeyID tags.
-var AllKIDs = []string{"touch", "touchless", "firefighter", "inagent", "nonce", "headless", "unknown-type", "regular", "null-prins", "empty-prins", "many-prins", "extra-member", "usage-other", "touch-extreme", "near-missing-field-named-elsewhere", "near-ver-null", "near-ver257", "near-missing-field", "near-ver2", "near-ver0", "near-conflict", "near-conflict-nonce", "near-conflict-headless-nonce", "near-conflict-headless-ff", "near-conflict-headless-touch", "near-conflict-nonce-touch", "near-trailing-text", "near-two-objects", "near-leading-text", "near-case", "empty", "text"}
+var AllKIDs = []string{"touch", "touchless", "firefighter", "inagent", "nonce", "headless", "unknown-type", "regular", "null-prins", "empty-prins", "many-prins", "extra-member", "usage-other", "touch-extreme", "near-missing-field-named-elsewhere", "near-ver-null", "near-ver-retyped", "near-ver257", "near-missing-field", "near-ver2", "near-ver0", "near-conflict", "near-conflict-nonce", "near-conflict-headless-nonce", "near-conflict-headless-ff", "near-conflict-headless-touch", "near-conflict-nonce-touch", "near-trailing-text", "near-two-objects", "near-leading-text", "near-case", "empty", "text"}
 
 // NewMaterial draws keys and certificates.
 func NewMaterial(r *rand.Rand, cfg Config) *Material {
@@ -297,6 +301,9 @@ func NewMaterial(r *rand.Rand, cfg Config) *Material {
 			va, vb = uint64(math.MaxInt64)+uint64(1+r.Intn(1000)), ssh.CertTimeInfinity
 		}
 		tag := kids[r.Intn(len(kids))]
+		if i < 2 && cfg.FirstKID != "" {
+			tag = cfg.FirstKID // every kind gets its turn in some history, whatever the draw
+		}
 		kid, _ := kidFor(tag, r)
 		ki := r.Intn(len(mt.Keys))
 		var opts map[string]string
